@@ -1,1 +1,28 @@
-From VP Require Import Base.Tactics Watermark.Model Watermark.Props.
+From VP Require Import Base.Tactics Watermark.Model Watermark.Run Watermark.Proofs Watermark.Props.
+Open Scope Z_scope.
+
+Check (C24_monotone : forall ops t n,
+  ops_ok t ops -> wm_le (wm_of t n) (wm_of (fold_left wstep ops t) n)).
+Print Assumptions C24_monotone.
+
+Check (C24_effective_min : forall ops,
+  ops_ok tr_new ops ->
+  let t := fold_left wstep ops tr_new in
+  match tr_eff t with
+  | Some w => is_min w (tr_src t)
+  | None => forall n s, In (n, s) (tr_src t) -> s_wm s = None
+  end).
+Print Assumptions C24_effective_min.
+
+Check (C24_late_only_if : forall streams ops ty ts,
+  eops_ok (load_streams streams) ops ->
+  let e := fold_left enext ops (load_streams streams) in
+  snd (e_event e ty ts) = false ->
+  exists t wm, e_tr e = Some t /\ tr_eff t = Some wm /\ is_min wm (tr_src t) /\
+               ts < wm /\ forall s, In s (consumers streams ty) -> ts < wm - lateness s).
+Print Assumptions C24_late_only_if.
+
+Check (C24_gate : forall eff streams ty ts,
+  gate_pass eff streams ty ts = false ->
+  exists wm, eff = Some wm /\ ts < wm /\ forall s, In s (consumers streams ty) -> ts < wm - lateness s).
+Print Assumptions C24_gate.
